@@ -201,6 +201,16 @@ CHECKS = {
         design_ref="DESIGN.md section 4, C10", note=E1_NOTE,
         technique="stateless model checking of the implementation (in-flight counters, rendezvous liveness, fault patterns) + bounded-exhaustive retry enumeration",
     ),
+
+    "C20": dict(
+        engine="E1", category="model_checking",
+        text=("(a) Explicit-state BFS over progress states: for every set of <= 2 (thorough 3) scopes from a pool of 20 awkward scope tuples (values of one unorderable type - complex, Enum, frozenset, opaque hashables -, mixed types, None, bool, bytes, nested tuples), "
+              "placed in the run section, the stale section or both, all counter states reachable by legal notification sequences (totals <= 2) are reached by driving the real observers' notification methods; in EVERY state a fresh console, HTML and IPython observer renders: "
+              "no exception, and the rendering shows the state's counts. (b) Stateless model checking (E1) of the real update thread (SimpleProgressObserver.__enter__/__exit__/_run_update_thread) with shim threading, a fake rational clock and timer firings of Event.wait as choices: "
+              "in every schedule within the budget the last rendering that shows a section reflects its final counts, the update thread is alive until __exit__ and never dies, and the elapsed time attributed to scopes equals exactly the time during which something was running."),
+        design_ref="DESIGN.md section 4, C20", note=E1_NOTE + " IPython observer is rendered outside a notebook (display captured); wall-clock is a fake clock advanced by the notifying thread.",
+        technique="explicit-state BFS over progress states with rendering in every state + stateless model checking of the update thread (timer firings as choices)",
+    ),
 }
 
 NOT_APPLICABLE = {
